@@ -104,7 +104,18 @@ static size_t verif_strlcpy(char *dest, const char *src, size_t maxlen)
 #define qb_util_timespec_from_epoch_get verif_timespec_from_epoch_get
 #define strlcpy verif_strlcpy
 
+/* -DVERIF_LIST_IDIOM (declared drop of the units that walk libqb lists): qb_list_for_each_entry() ends by computing
+ * container_of(list head) -- a pointer outside the head object that is compared, never dereferenced.  CBMC's
+ * pointer-overflow check flags that arithmetic; it is switched off inside log.c for these units (dereference and
+ * bounds checks stay on). */
+#ifdef VERIF_LIST_IDIOM
+#pragma CPROVER check push
+#pragma CPROVER check disable "pointer-overflow"
+#endif
 #include "log.c"
+#ifdef VERIF_LIST_IDIOM
+#pragma CPROVER check pop
+#endif
 
 /* ---- recording target callbacks ---- */
 int32_t verif_wit_slot;                    /* the witness slot (chosen freely by the harness) */
